@@ -57,12 +57,12 @@ const (
 type TimeVal struct {
 	Param bool // the function's time parameter
 	// Date(y, m, d, h, mi, s, ns, loc)
-	Date                   bool
-	Y, M, D, H, Mi, S, Ns  *Aff
-	Loc                    string
-	Plus                   *Aff // + duration (ns)
-	TruncOf                *TimeVal
-	TruncK                 *Aff
+	Date                  bool
+	Y, M, D, H, Mi, S, Ns *Aff
+	Loc                   string
+	Plus                  *Aff // + duration (ns)
+	TruncOf               *TimeVal
+	TruncK                *Aff
 }
 
 // Cond is an atomic comparison  A op C  (C constant) on an integer form.
